@@ -227,7 +227,12 @@ def check_floor(ctx, F, cfg):
     (sname, _sid), (iname, _iid) = [H.pat_bindings(p)[0] for p in fn["params"]]
     Sx, Ix = ("param", sname), ("param", iname)
 
+    def is_bytes(t):
+        return t[0] == "call" and t[1] == "core::str::<impl str>::as_bytes" and t[2] == (Sx,)
+
     def is_len(t):
+        if t[0] == "call" and t[1] == "core::slice::<impl [T]>::len" and len(t[2]) == 1 and is_bytes(t[2][0]):
+            return True     # s.as_bytes().len() is s.len()
         return t[0] == "call" and t[1] == "core::str::<impl str>::len" and t[2] == (Sx,)
 
     pf = F.fn(PRED)
@@ -302,12 +307,76 @@ def check_floor(ctx, F, cfg):
         for kind, x in obligations(fn):
             need("obligation|%s" % A.desc(x)[:60], x.get("sp") in covered, "panic-capable construct outside the template: %s" % A.desc(x)[:100], where=H.line(x))
         return ok_all, covered
-    extra_atoms = [a for p in paths for a in p.atoms if not (a[0] == "true" and a[1][0] == "bin" and (is_len(a[1][2]) or is_len(a[1][3])) and Ix in (a[1][2], a[1][3])) and not (a[0] in ("is", "isnot") and a[1][0] == "call" and a[1][1].endswith("::rposition"))]
+    extra_atoms = [a for p in paths for a in p.atoms if not (a[0] == "true" and a[1][0] == "bin" and (is_len(a[1][2]) or is_len(a[1][3])) and Ix in (a[1][2], a[1][3])) and not (a[0] in ("is", "isnot") and a[1][0] == "call" and a[1][1].endswith(("::rposition", "::find")))]
     if not need("guard", len(clamp) == 1 and len(search) == 1 and len(live) == 2 and not extra_atoms,
                 "the guard is no longer `index >= s.len()` (clamp) / `index < s.len()` (search): %s" % [[S.show_atom(a) for a in p.atoms] for p in live][:3]):
         return False, covered
     need("clamp-result", is_len(clamp[0].result), "when index >= len the result is %s, expected s.len()" % S.show(clamp[0].result)[:60])
     r = search[0].result
+    # the same search written over absolute positions: (lower ..= index).rev().find(|&i| pred(bytes[i])) -- the first hit going
+    # down from index is the last boundary in the window
+    rev_find = None
+    if r is not None and r[0] == "proj" and r[2] == S.SOME and r[1][0] == "call" and r[1][1].endswith("::find") and len(r[1][2]) == 2:
+        it = r[1][2][0]
+        if it[0] == "call" and it[1].endswith("Iterator::rev") and len(it[2]) == 1 and it[2][0][0] == "call" and it[2][0][1].endswith("RangeInclusive::<Idx>::new") and len(it[2][0][2]) == 2:
+            rev_find = (it[2][0][2][0], it[2][0][2][1], r[1][2][1])
+    if rev_find is not None:
+        lower, upper, clos = rev_find
+        if not need("lower", lower[0] == "call" and lower[1] == "core::num::<impl usize>::saturating_sub" and lower[2][0] == Ix and lower[2][1][0] == "lit" and isinstance(lower[2][1][1], int),
+                    "lower bound is not index.saturating_sub(K): %s" % S.show(lower)[:100]):
+            return False, covered
+        K = lower[2][1][1]
+        need("window-size", K + 1 >= 4, "the search window has %d positions; a UTF-8 character can be 4 bytes long, so the boundary may lie outside the window (undefined behaviour in unwrap_unchecked)" % (K + 1))
+        need("window", upper == Ix, "the window does not end at index (inclusive): %s" % S.show(upper)[:60])
+        pf = F.fn(PRED)
+        if need("predicate-anchor", pf is not None and len(pf["params"]) == 1 and pf["inputs"] == ["u8"] and clos[0] == "closure" and clos[1] in sym.closures, "anchor missing: is_utf8_char_boundary(u8) / the search predicate is not a closure"):
+            probe = ("unk", -2, "position")
+            body = sym.apply_closure(clos, [probe])
+            if body is None:
+                # the predicate indexes the byte slice (an event of this analysis): evaluate it on a scratch copy of the search path
+                scratch = search[0].fork()
+                scratch.done = scratch.result = None
+                res = [t for s2, t in sym.inline_closure(clos, [probe], scratch) if s2.done is None]
+                body = res[0] if len(res) == 1 else None
+            okb = body is not None and body[0] == "call" and body[1] == PRED and len(body[2]) == 1 and body[2][0][0] == "index" and is_bytes(body[2][0][1]) and body[2][0][2] == probe
+            need("predicate-call", okb, "the search predicate is not `|i| is_utf8_char_boundary(bytes[i])`: %s" % S.show(body)[:80])
+            bad = None
+            acc = set()
+            for b in range(256):
+                try:
+                    ps = S.Sym(F, pf, param_terms={H.pat_bindings(pf["params"][0])[0][0]: ("lit", b)}).run()
+                except S.TooManyPaths:
+                    ps = []
+                vals = {p.result for p in ps}
+                if len(vals) == 1 and next(iter(vals)) in (("lit", True), ("lit", False)):
+                    if next(iter(vals))[1]:
+                        acc.add(b)
+                else:
+                    bad = (b, [S.show(v)[:40] for v in vals])
+                    break
+            if bad is not None:
+                need("predicate-formula", False, "boundary predicate is not a closed byte formula (byte 0x%02x gives %s)" % bad, where=pf["sp"])
+            else:
+                must = set(range(0x00, 0x80)) | set(range(0xC2, 0xF5))
+                mustnot = set(range(0x80, 0xC0))
+                need("predicate-set", must <= acc and not (acc & mustnot),
+                     "is_utf8_char_boundary accepts %s, rejects %s: it must accept every ASCII and lead byte and no continuation byte" %
+                     (sorted("0x%02x" % b for b in acc & mustnot)[:6], sorted("0x%02x" % b for b in must - acc)[:6]), where=pf["sp"])
+            # the index inside the predicate: lower <= i <= index < len
+            cnode = sym.closures[clos[1]][0]
+            for x in H.walk(cnode["body"]):
+                if x.get("k") == "index":
+                    covered[x.get("sp")] = "bytes[i] with lower <= i <= index < len"
+        for p in ub:
+            covered[p.done[1]] = "a window of >= 4 positions ending at index < len contains a boundary"
+        A = Analysis(fn)
+        for kind, x in obligations(fn):
+            if kind == "unsafe":
+                inner = [y for y in H.walk(x) if y is not x and (y.get("unsafe_fn") or (y.get("k") == "unary" and y["op"] == "deref" and (y["e"].get("ty") or "").startswith("*")))]
+                need("unsafe-block|%d" % len(inner), all(y.get("sp") in covered for y in inner), "the unsafe block contains more than the unwrap_unchecked of the search result", where=H.line(x))
+            else:
+                need("obligation|%s" % A.desc(x)[:60], x.get("sp") in covered, "panic-capable construct outside the template: %s" % A.desc(x)[:100], where=H.line(x))
+        return ok_all, covered
     if not need("result-shape", r is not None and r[0] == "bin" and r[1] == "+", "the result is not `lower_bound + position`: %s" % S.show(r)[:120]):
         return False, covered
     UNW_OR = (S.O + "unwrap_or", S.O + "unwrap_or_default")
